@@ -8,7 +8,10 @@ Per case (a JSON spec of a scenario x planning-problem set, built through the pu
                    (3) model `decodePb (encScn x)`              vs  snapshot(read back)
                    (4) reader-only: optional fields cleared in the real message, real reader vs model `decodePb`
                    (5) writer error branches: out-of-range integers, enum members / state attributes the .proto lacks
-  oracle           snapshot(original) vs snapshot(read back): discrete content identical, every real compared by float.hex(),
+                   (6) one writer object used for several files (write_to_file / write_scenario_to_file in any order):
+                       every file's message tree vs the model's writer object CR.PBF.Wr.run
+  oracle           every file of (6) read back vs the content handed to the writer (scenario-only file: no planning problem);
+                   snapshot(original) vs snapshot(read back): discrete content identical, every real compared by float.hex(),
                    absent optional data absent, unset attributes of initial states read back as 0 (C01's documented default)
 """
 from __future__ import annotations
@@ -55,7 +58,10 @@ REQUIRED_BUCKETS = ["sign:virtual-true", "sign:first-occurrence", "light:offset"
                     "lanelet:stop-line", "goal:lanelets-partial", "init:unset-middle-attr", "location:default",
                     "location:env-time-date", "header:via-writer", "phantom", "env-obstacle", "state:no-position",
                     "real:subnormal-or-huge", "reader-defaults", "writer-error:value", "writer-error:attr", "roundtrip-ok",
-                    "canonical-original", "signal:empty-object", "outside:initial-extra-attribute"]
+                    "canonical-original", "signal:empty-object", "outside:initial-extra-attribute",
+                    "history:write_scenario_to_file-after-write_to_file", "history:write_scenario_to_file-after-nothing",
+                    "history:write_scenario_to_file-after-write_scenario_to_file", "history:write_to_file-after-write_to_file",
+                    "history:write_to_file-after-write_scenario_to_file"]
 WORKERS = {"quick": 1, "thorough": 8}
 
 logging.disable(logging.CRITICAL)
@@ -408,6 +414,74 @@ def run_case(ctx, case, correspond=True):
         ctx.fail(f"C02/content/{k}", f"{path}: written {json.dumps(x)[:120]} read back {json.dumps(y)[:120]}", {"spec": sp})
     if correspond and ctx.rng.random() < 0.35:
         reader_defaults(ctx, msg, sp)
+    if case.get("history"):
+        run_history(ctx, sp, sc, pps, wkw, a, [bool(x) for x in case["history"]], correspond)
+
+
+# ------------------------------------------------------------------------------------------------ one writer object, several files
+
+CALL = {True: "write_to_file", False: "write_scenario_to_file"}
+
+
+def gen_history(r):
+    """2..4 calls on one writer object; True = write_to_file, False = write_scenario_to_file."""
+    return [r.random() < 0.5 for _ in range(r.choice([2, 2, 3, 4]))]
+
+
+def run_history(ctx, sp, sc, pps, wkw, a, hist, correspond=True):
+    """ONE CommonRoadFileWriter used for several files.  Every file, read back, has to yield the content handed to the
+    writer (scenario-only file: the scenario, no planning problem) whatever the writer wrote before; correspondence: the
+    message tree of every file vs the model's writer object (CR.PBF.Wr.run)."""
+    from commonroad.common.file_reader import CommonRoadFileReader
+    from commonroad.common.file_writer import CommonRoadFileWriter, OverwriteExistingFile
+    from commonroad.common.util import FileFormat
+    try:
+        writer = CommonRoadFileWriter(sc, pps, file_format=FileFormat.PROTOBUF, **wkw)
+    except Exception:  # noqa  (already reported by the single-write run)
+        return
+    model = ctx.driver.ask("C02", "history", {"x": a, "T": tables_for(a), "ops": hist}) if correspond else None
+    prev = "nothing"
+    for i, full in enumerate(hist):
+        call = CALL[full]
+        where = f"{call}-after-{prev}"
+        ctx.tag(f"history:{where}")
+        sub = {"spec": sp, "history": hist[:i + 1]}
+        ctx._c02_n = getattr(ctx, "_c02_n", 0) + 1
+        path = os.path.join(ctx.tmpdir(), f"h{ctx._c02_n}.pb")
+        try:
+            getattr(writer, call)(path, OverwriteExistingFile.ALWAYS)
+            data = open(path, "rb").read()
+        except Exception as e:  # noqa
+            ctx.fail(f"C02/reused-writer/{where}/write/raises-{err_class(e)}/{_site(e)}",
+                     f"call {i + 1} ({call}) on a writer that wrote before raises {type(e).__name__}: {str(e)[:120]}", sub)
+            if correspond:
+                ctx.compare(sub, {"err": err_class(e)}, model[i], "reused writer raises vs CR.PBF.Wr.run")
+            return
+        if correspond:
+            ctx.compare(sub, {"ok": msg_tree(parse_tree(data))}, model[i], f"file {i + 1} of one writer object ({where}) vs CR.PBF.Wr.run")
+        want = a if full else dict(a, pps=[])
+        try:
+            sc2, pps2 = CommonRoadFileReader(path).open()
+        except Exception as e:  # noqa
+            ctx.fail(f"C02/reused-writer/{where}/read/raises-{err_class(e)}/{_site(e)}",
+                     f"file {i + 1} of one writer object ({where}) cannot be read back: {type(e).__name__}: {str(e)[:120]}", sub)
+            prev = call
+            continue
+        finally:
+            try:
+                os.unlink(path)
+            except OSError:
+                pass
+        b = S.snapshot(sc2, pps2)
+        seen = set()
+        for pth, x, y in S.diff(S.expected(want), S.canon_order(S.strip_cls(b))):
+            k = key_of_path(pth)
+            if k not in seen:
+                seen.add(k)
+                ctx.fail(f"C02/reused-writer/{where}/content/{k}",
+                         f"file {i + 1} of one writer object ({where}) {pth}: handed to the writer {json.dumps(x)[:100]} read back "
+                         f"{json.dumps(y)[:100]}", sub)
+        prev = call
 
 
 # ------------------------------------------------------------------------------------------------ reader-only correspondence
@@ -555,7 +629,10 @@ def run(ctx):
         run_case(ctx, json.load(open(p)))
     n = ctx.n(700)
     for i in range(n):
-        run_case(ctx, {"spec": G.gen_spec(ctx.rng, size="small" if i % 3 == 0 else "normal")})
+        case = {"spec": G.gen_spec(ctx.rng, size="small" if i % 3 == 0 else "normal")}
+        if i % 4 == 1:
+            case["history"] = gen_history(ctx.rng)
+        run_case(ctx, case)
     for _ in range(ctx.n(60)):
         c = gen_invalid(ctx.rng)
         if c is not None:
@@ -567,7 +644,10 @@ def search(ctx):
     for p in sorted(glob.glob(os.path.join(CORPUS_DIR, "C02", "*.json"))):
         run_case(ctx, json.load(open(p)), correspond=False)
     for i in range(ctx.n(150)):
-        run_case(ctx, {"spec": G.gen_spec(ctx.rng)}, correspond=False)
+        case = {"spec": G.gen_spec(ctx.rng)}
+        if i % 3 == 1:
+            case["history"] = gen_history(ctx.rng)
+        run_case(ctx, case, correspond=False)
 
 
 def replay(ctx, case):
@@ -599,10 +679,10 @@ class _Probe:
         self.failures.append(key)
 
 
-def _still_fails(sp, key):
+def _still_fails(sp, key, history=None):
     p = _Probe()
     try:
-        run_case(p, {"spec": sp}, correspond=False)
+        run_case(p, {"spec": sp, "history": history}, correspond=False)
     except Exception:  # noqa
         return False
     finally:
@@ -616,7 +696,8 @@ def shrink(case, key):
     if case.get("kind") == "invalid" or "spec" not in case:
         return case
     sp = copy.deepcopy(case["spec"])
-    if not _still_fails(sp, key):
+    hist = case.get("history")
+    if not _still_fails(sp, key, hist):
         return case
     lists = ["lanelets", "signs", "lights", "intersections", "static", "dynamic", "env", "phantom", "pps"]
     changed = True
@@ -629,7 +710,7 @@ def shrink(case, key):
             while i < len(sp[k]):
                 cand = copy.deepcopy(sp)
                 del cand[k][i]
-                if _still_fails(cand, key):
+                if _still_fails(cand, key, hist):
                     sp = cand
                     changed = True
                 else:
@@ -637,13 +718,13 @@ def shrink(case, key):
     for simple in (("location", None), ("sid", None), ("tags", []), ("via", "scenario")):
         cand = copy.deepcopy(sp)
         cand[simple[0]] = simple[1]
-        if _still_fails(cand, key):
+        if _still_fails(cand, key, hist):
             sp = cand
     for o in sp["static"] + sp["dynamic"]:
         for f in ("sig0", "series"):
             if o.get(f) is not None:
                 save = o[f]
                 o[f] = None
-                if not _still_fails(sp, key):
+                if not _still_fails(sp, key, hist):
                     o[f] = save
-    return {"spec": sp}
+    return {"spec": sp, "history": hist} if hist else {"spec": sp}
